@@ -14,7 +14,8 @@ CONSTANTS GenWhat,     \* which families of cases to print
 
 Case(k, pop, pol, allow, sc, ops) ==
   [kind |-> k, imm |-> FALSE, pop |-> pop, pol |-> pol, allow |-> allow,
-   scope |-> [unl |-> sc.unl, triples |-> sc.set], ops |-> ops, failafter |-> -1, failwith |-> ""]
+   scope |-> [unl |-> sc.unl, triples |-> sc.set], ops |-> ops, failafter |-> -1, failwith |-> "",
+   tree |-> <<>>, nodes |-> <<>>]
 \* the same with a backend whose repository listing fails after k items, handing the name
 \* `with` over together with the error
 CaseF(k, pop, pol, allow, sc, ops, after, with) ==
@@ -23,7 +24,8 @@ AllOk == TableOf(<<>>)
 Vals == {PolOk} \cup ErrIds
 \* every method on r1, mounts between r1 and r2, under every assignment of the entries involved
 OpsEntries == ({"r1"} \X Kinds) \cup ({"r2"} \X {"Read", "Write"})
-CheckerOpsSeq == OpsSeqOn("r1") \o <<Mount("r1", "r2"), Mount("r2", "r1"), Mount("r1", "r1"), Mount("r3", "r1")>>
+CheckerOpsSeq == OpsSeqOn("r1") \o <<[op |-> "Resume", r |-> "r2", u |-> "u1", off |-> -1], [op |-> "Resume", r |-> "r2", u |-> "u2", off |-> 0]>>
+                 \o <<Mount("r1", "r2"), Mount("r2", "r1"), Mount("r1", "r1"), Mount("r3", "r1")>>
                  \o (IF GenFull THEN ReadsOn("r2") ELSE <<>>)
 CheckerOpsCases == {Case("checker", {"r1", "r2", "r3"}, TableOf(f), {}, NoScope, CheckerOpsSeq) : f \in [OpsEntries -> Vals]}
 \* listings: every populated subset x every subset allowed for Read (List on the items is always
@@ -64,13 +66,39 @@ SubListCases ==
   {Case("sub", pop, <<>>, {}, sc, [i \in 1..(2 * Cardinality(ViewRepos) + 2) |-> [op |-> "ListRepos", startpos |-> i - 1]]) :
      pop \in SUBSET Repos, sc \in {NoScope, RichScope}}
 
+\* failing backend listings under the view: every populated subset, failure after 0..3 backend
+\* items, the name handed over with the error being a sibling of the prefix / a name under it
+SubFailCases ==
+  {CaseF("sub", pop, <<>>, {}, RichScope, <<[op |-> "ListRepos", startpos |-> 0], [op |-> "ListRepos", startpos |-> 3]>>, k, w) :
+     pop \in SUBSET Repos, k \in 0..3, w \in (IF GenFull THEN {"fooey", "foo/b", ""} ELSE {"fooey"})}
+\* Wrappers built on wrappers: a chain of d wrappers (each refusing r4 only), then two SIBLING
+\* wrappers built on the chain's top, A showing r1 only and B showing r2 only; all are built
+\* first, then every method family goes through A, through B and through the chain's top.
+Node(k, parent, pol, allow) == [kind |-> k, parent |-> parent, pol |-> pol, allow |-> allow]
+OnlyTable(S, e) == [n \in Repos \cup {Star} |-> [k \in Kinds |-> IF n \in S \/ n = Star THEN PolOk ELSE e]]
+Wrap(k, parent, S, e) == IF k = "select" THEN Node(k, parent, <<>>, S \cup {Star}) ELSE Node(k, parent, OnlyTable(S, e), {})
+TreeOf(d, ck, sk, e) ==
+  [i \in 1..d |-> Wrap(ck, i - 1, {"r1", "r2", "r3"}, e)] \o <<Wrap(sk, d, {"r1"}, e), Wrap(sk, d, {"r2"}, e)>>
+ProbeOps == <<[op |-> "GetBlob", r |-> "r1", c |-> "b1"], [op |-> "GetBlob", r |-> "r2", c |-> "b1"],
+              [op |-> "ResolveTag", r |-> "r4", t |-> "t1"],
+              [op |-> "PushBlob", r |-> "r1", c |-> "b0", dd |-> "b0", ds |-> 0], [op |-> "PushBlob", r |-> "r2", c |-> "b0", dd |-> "b0", ds |-> 0],
+              [op |-> "DeleteTag", r |-> "r2", t |-> "t2"], [op |-> "ListTags", r |-> "r1", startpos |-> 0],
+              Mount("r1", "r2"), Mount("r2", "r1"), [op |-> "ListRepos", startpos |-> 0], [op |-> "ListRepos", startpos |-> 3]>>
+Times(x, n) == [i \in 1..n |-> x]
+TreeCases ==
+  {[Case("tree", Repos, <<>>, {}, NoScope, ProbeOps \o ProbeOps \o (IF d > 0 THEN ProbeOps ELSE <<>>) \o ProbeOps)
+      EXCEPT !.tree = TreeOf(d, ck, sk, CHOOSE e \in ErrIds : TRUE),
+             !.nodes = Times(d + 1, Len(ProbeOps)) \o Times(d + 2, Len(ProbeOps))
+                       \o (IF d > 0 THEN Times(d, Len(ProbeOps)) ELSE <<>>) \o Times(d + 1, Len(ProbeOps))] :
+     d \in 0..3, ck \in {"checker", "select"}, sk \in {"checker", "select"}}
 Cases == (IF "checkerops" \in GenWhat THEN CheckerOpsCases ELSE {})
     \cup (IF "checkerlist" \in GenWhat THEN CheckerListCases ELSE {})
     \cup (IF "selectlist" \in GenWhat THEN SelectListCases ELSE {})
     \cup (IF "selectops" \in GenWhat THEN SelectOpsCases ELSE {})
+    \cup (IF "trees" \in GenWhat THEN TreeCases ELSE {})
     \cup (IF "listfail" \in GenWhat THEN CheckerFailCases \cup SelectFailCases ELSE {})
     \cup (IF "subnames" \in GenWhat THEN SubNameCases ELSE {})
-    \cup (IF "sublist" \in GenWhat THEN SubListCases ELSE {})
+    \cup (IF "sublist" \in GenWhat THEN SubListCases \cup SubFailCases ELSE {})
 ASSUME \A c \in Cases : PrintT(<<"MBT", ToJson(c)>>)
 
 \* nothing to explore: the cases are printed while the assumption is evaluated
